@@ -148,6 +148,7 @@ func (f *FuncVC) rollback(fr *frame, s snapshot) {
 			delete(f.loadCache, k)
 		}
 	}
+	f.groundDefs = map[string]bool{} // re-emitted on demand (duplicates are harmless)
 	for k, nm := range f.predCache {
 		if f.predIdx[nm] > s.ncmds {
 			delete(f.predCache, k)
